@@ -38,6 +38,9 @@ struct device_data_s {
 	int           rv;
 	bool          owned;
 	device_path   paths[2];
+	nni_aio       done_aio;  // runs the final teardown on a task thread
+	nni_aio      *done_user; // user aio to complete at teardown
+	nng_err       done_rv;
 	nni_reap_node reap;
 };
 
@@ -60,6 +63,8 @@ device_fini(void *arg)
 	for (int i = 0; i < d->num_paths; i++) {
 		nni_aio_fini(&d->paths[i].aio);
 	}
+	nni_aio_stop(&d->done_aio);
+	nni_aio_fini(&d->done_aio);
 	NNI_FREE_STRUCT(d);
 }
 
@@ -74,6 +79,24 @@ device_close(device_data *d)
 	if (d->paths[0].dst != d->paths[0].src) {
 		nni_sock_close_device(d->paths[0].dst);
 	}
+}
+
+// device_done_cb finishes a device whose forwarders have all stopped.  It is
+// dispatched as a task of its own: the last forwarder callback may be running
+// nested inside a pipe callback (synchronous completion), and closing the
+// sockets from there would wait for that very callback to end.
+static void
+device_done_cb(void *arg)
+{
+	device_data *d    = arg;
+	nni_aio     *user = d->done_user;
+
+	d->done_user = NULL;
+	device_close(d);
+	if (user != NULL) {
+		nni_aio_finish_error(user, d->done_rv);
+	}
+	nni_reap(&device_reap, d);
 }
 
 static void
@@ -133,13 +156,11 @@ device_cb(void *arg)
 			nni_aio *user = d->user;
 			nng_err  err  = d->rv;
 
-			d->user = NULL;
+			d->user      = NULL;
+			d->done_user = user;
+			d->done_rv   = err;
 			nni_mtx_unlock(&device_mtx);
-			device_close(d);
-			if (user != NULL) {
-				nni_aio_finish_error(user, err);
-			}
-			nni_reap(&device_reap, d);
+			nni_aio_finish(&d->done_aio, 0, 0);
 			return;
 		}
 		nni_mtx_unlock(&device_mtx);
@@ -242,6 +263,7 @@ device_init(device_data **dp, nni_sock *s1, nni_sock *s2)
 
 		nni_aio_set_timeout(&p->aio, NNG_DURATION_INFINITE);
 	}
+	nni_aio_init(&d->done_aio, device_done_cb, d);
 	d->num_paths = num_paths;
 	d->owned     = false;
 	*dp          = d;
